@@ -1,4 +1,5 @@
 import CgreenModel.Lemmas.Faults
+import CgreenModel.Lemmas.Link
 /-!
 # C19 — resource failures never turn into a passing verdict
 The part of the property that is logic — what the reporting process concludes from a result channel on
@@ -80,5 +81,18 @@ failing test's results leaves them in the channel, and the next readers pick the
 example : (runPhases (some 1) ([{ recs := [.pass, .fail] }, { recs := [.pass] }] ++ [top])).cnt = ⟨2, 1, 0, 1⟩ := by decide
 example : (runPhases (some 1) ([{ recs := [.pass, .fail] }, { recs := [.pass] }] ++ [top])).pipe = [.completion] := by decide
 example : (runPhases none ([{ recs := [.pass, .fail] }, { recs := [.pass] }] ++ [top])).cnt = ⟨2, 1, 0, 0⟩ := by decide
+
+/-- The channel model (C19, and the outside-bracket statements of C01) is an abstraction of the runner model: for every
+tree, capacity and reporter, the legs of the tree fed to the channel model give the totals the runner model's forked run
+ends with, and leave the channel empty. -/
+theorem C19_channel_model_abstracts_the_runner (cap : Nat) (hcap : 0 < cap) (r : Reporter) (t : Tree) (hok : t.AllOk cap .fork) :
+    (runPhases none (t.legs cap)).cnt = (run ⟨cap, .fork, r⟩ t).tot ∧ (runPhases none (t.legs cap)).pipe = [] := by
+  obtain ⟨h1, h2⟩ := foldl_tree cap t {} rfl hok
+  rw [(run_spec cap hcap .fork r t hok).2.2.1]
+  unfold runPhases
+  refine ⟨?_, h2⟩
+  rw [h1]
+  show (0 : Cnt) + t.truth cap = t.truth cap
+  simp
 
 end Cgreen
